@@ -243,9 +243,17 @@ class ProfileBase(metaclass=abc.ABCMeta):
             # need to use __dict__ as these are lazy properties
             self.__dict__['profile'] = self.profile / normalization
             self.__dict__['profile_error'] = self.profile_error / normalization
-            if 'data_profile' in self.__dict__:
-                self.__dict__['data_profile'] = (self.data_profile
-                                                 / normalization)
+            self._reset_normalized_lazyproperties()
+
+    def _reset_normalized_lazyproperties(self):
+        """
+        Reset the cached properties that are derived from the
+        (un)normalized profile so that they are recomputed from the
+        current normalization, whenever they were first read.
+        """
+        for key in ('data_profile', '_profile_nanmask', 'gaussian_fit',
+                    'gaussian_profile', 'gaussian_fwhm'):
+            self.__dict__.pop(key, None)
 
     def unnormalize(self):
         """
@@ -255,10 +263,8 @@ class ProfileBase(metaclass=abc.ABCMeta):
         self.__dict__['profile'] = self.profile * self.normalization_value
         self.__dict__['profile_error'] = (self.profile_error
                                           * self.normalization_value)
-        if 'data_profile' in self.__dict__:
-            self.__dict__['data_profile'] = (self.data_profile
-                                             * self.normalization_value)
         self.normalization_value = 1.0
+        self._reset_normalized_lazyproperties()
 
     def plot(self, ax=None, **kwargs):
         """
